@@ -124,6 +124,7 @@ class FakeDongle:
         self.pid = 0
         self.pending = None          # result of the last write, returned by the next read
         self.results = []            # (t, acked, retries, frame, ack payload) per bulk transfer
+        self.result_peer = []        # the peer the dongle was tuned to for that transfer (None: nobody listens there)
         self.usb_log = []
         self.disposed = 0
         self.unplugged = False
@@ -169,6 +170,8 @@ class FakeDongle:
             if self.air.airtime:
                 sim.sleep(self.air.airtime)
             out = self.air.outcome() if peer is not None else 1
+            if peer is not None and getattr(peer, 'deaf', False):
+                out = 1                     # out of range
             self.air.log.append((sim.now, out, self.pid, frame))
             if out == 1 or peer is None:
                 continue                    # uplink lost: the peer hears nothing
@@ -179,6 +182,7 @@ class FakeDongle:
             payload = ack
             break
         self.results.append((sim.now, acked, tries, frame, payload))
+        self.result_peer.append(peer)
         if acked:
             self.pending = array.array('B', bytes([0x01 | (min(tries, 15) << 4)]) + payload)
         else:
